@@ -370,6 +370,31 @@ func e2eInner(t *testing.T) {
 		}
 	}
 
+	// a client that sets the BROADCAST flag (psa-dhcpc never does): the observer sends a DISCOVER of its own
+	{
+		seen("c06")
+		oc := &simClient{mac: []byte{2, 0xdd, 0, 0, 0, 0x33}, xid: 0x0b0b0b0b}
+		mark := len(tap.snapshot())
+		inject(net.HardwareAddr{0xff, 0xff, 0xff, 0xff, 0xff, 0xff}, net.HardwareAddr(oc.mac), 0x0800, udpip(0, 0xffffffff, 68, 67, 17, 64, oc.msg(1, 0x8000, 0).bytes()))
+		got := false
+		for end := time.Now().Add(5 * time.Second); time.Now().Before(end) && !got; time.Sleep(50 * time.Millisecond) {
+			for _, f := range tap.snapshot()[mark:] {
+				if f.outgoing && len(f.b) > 14+28 && f.b[12] == 0x08 && f.b[13] == 0 {
+					if rp := parseReply(f.b[14:]); rp.ok && rp.msg.xid == oc.xid && rp.typ == 2 {
+						got = true
+						if !bytes.Equal(f.b[0:6], []byte{0xff, 0xff, 0xff, 0xff, 0xff, 0xff}) || rp.dst != 0xffffffff || rp.msg.flags&0x8000 == 0 {
+							bad("c06", "e2e-server-frame", "OFFER to a client that set the broadcast flag went to %s / %s with flags %04x", net.HardwareAddr(f.b[0:6]), ip4(rp.dst), rp.msg.flags)
+						}
+						cs.add(1410, "e2e-offer-bcast", true, args(L{0, uint64(oc.xid), 0, 0, 0}, B(oc.mac), B(f.b[14:])), args(L{1}))
+					}
+				}
+			}
+		}
+		if !got {
+			bad("c06", "e2e-no-reply", "no OFFER within 5 s for a DISCOVER that sets the broadcast flag (three pool addresses are free)\n%s", tailStr(srvLog.String(), 500))
+		}
+	}
+
 	// the client acquires a lease
 	cli, cliLog := start("psa-dhcpc", "-ifname", "veth1")
 	defer cli.Process.Kill()
@@ -444,6 +469,8 @@ func e2eInner(t *testing.T) {
 				}
 				c.add(1610, "e2e-client", true, args(L{kind, leased, server}, B(cliMAC), B(f.b[14:])), args(L{1}))
 				lastReq = &x
+			case f.outgoing && rp.sport == 67 && !bytes.Equal(rp.msg.chaddr, cliMAC):
+				// reply to the observer's own DISCOVER: judged where it was sent
 			case f.outgoing && rp.sport == 67:
 				seen("c06")
 				if !bytes.Equal(src, srvMAC) {
@@ -522,7 +549,27 @@ func e2eInner(t *testing.T) {
 			bad("c15", "e2e-interface", "%s: default route is %q, the ACK announced router 10.77.0.1", when, strings.TrimSpace(rt))
 		}
 	}
+	lifetime := func() int {
+		out := ipOut("-4", "-o", "addr", "show", "dev", "veth1")
+		if i := strings.Index(out, "valid_lft "); i >= 0 {
+			var n int
+			if _, err := fmt.Sscanf(out[i+len("valid_lft "):], "%dsec", &n); err == nil {
+				return n
+			}
+			if strings.HasPrefix(out[i+len("valid_lft "):], "forever") {
+				return 1 << 30
+			}
+		}
+		return -1
+	}
+	checkLifetime := func(when string) {
+		// the kernel removes the address by itself when its lifetime runs out: it has to cover the lease just acknowledged
+		if n := lifetime(); n < 56 {
+			bad("c15", "e2e-lifetime", "%s: the address is configured with %d s left to live; the lease just acknowledged is 60 s", when, n)
+		}
+	}
 	checkIface("after the first ACK")
+	checkLifetime("after the first ACK")
 	seen("c19")
 	srvQuiet, cliQuiet := stableSockets(srv.Process.Pid), stableSockets(cli.Process.Pid)
 	if srvQuiet != srvBase {
@@ -530,9 +577,15 @@ func e2eInner(t *testing.T) {
 	}
 
 	// ---- link flap: re-validation by rebinding ----
+	time.Sleep(4 * time.Second) // let the first lifetime run down a little: the re-validation has to renew it
 	mark := len(tap.snapshot())
 	must("link", "set", "veth1", "down")
-	time.Sleep(300 * time.Millisecond)
+	time.Sleep(150 * time.Millisecond)
+	// another interface comes up during the outage: none of the client's business
+	must("link", "add", "vx0", "type", "veth", "peer", "name", "vx1")
+	must("link", "set", "vx0", "up")
+	must("link", "set", "vx1", "up")
+	time.Sleep(150 * time.Millisecond)
 	must("link", "set", "veth1", "up")
 	gotAck := false
 	for end := time.Now().Add(12 * time.Second); time.Now().Before(end) && !gotAck; time.Sleep(100 * time.Millisecond) {
@@ -563,6 +616,7 @@ func e2eInner(t *testing.T) {
 			bad("c15", "e2e-no-revalidation", "rebinding REQUEST sent but not acknowledged\n%s", tailStr(srvLog.String(), 600))
 		}
 		checkIface("after the link-up re-validation")
+		checkLifetime("after the link-up re-validation")
 		seen("c19")
 		if n := stableSockets(srv.Process.Pid); n != srvBase {
 			bad("c19", "e2e-sockets", "psa-dhcpd holds %d sockets after the second exchange, %d at start", n, srvBase)
@@ -673,6 +727,26 @@ func e2eInner(t *testing.T) {
 			if _, _, ok := waitFor(gone.Add(5*time.Second), func(f e2eFrame, rp wreply) bool { return !f.outgoing && rp.typ == 1 && f.t.After(gone.Add(-time.Second)) }); !ok {
 				bad("c15", "e2e-timer", "no DISCOVER within 5 s of the expiry\n%s", tailStr(cliLog.String(), 500))
 			}
+		}
+	}
+	// the interface vanishes under the client: every socket it tries to open from now on fails half-way; none may be left behind
+	if alive(cli) {
+		seen("c19")
+		exec.Command("ip", "link", "del", "veth1").Run()
+		lo, hi := 1<<30, -1
+		for i := 0; i < 30 && alive(cli); i++ {
+			time.Sleep(100 * time.Millisecond)
+			if n := e2eSockets(cli.Process.Pid); n >= 0 {
+				if n < lo {
+					lo = n
+				}
+				if n > hi {
+					hi = n
+				}
+			}
+		}
+		if hi > cliQuiet+4 {
+			bad("c19", "e2e-sockets", "after its interface was deleted psa-dhcpc holds up to %d sockets (%d while bound): failed opens leave descriptors behind", hi, cliQuiet)
 		}
 	}
 	syscall.Close(tapFd)
